@@ -88,22 +88,32 @@ def posOf (k : String) : List String → Nat
 def precedes (l : List String) (a b : String) : Bool :=
   l.contains a && l.contains b && posOf a l < posOf b l
 
-/-- One `fuse_xformers` stage acting on what sits in front of MHA's query (`ops`, outermost last), with the flags
-"scale folded" / "query bias folded": `mha_scale` peels a `Mul` that feeds MHA directly, `mha_bias` an `Add`
-(it also fires, without touching the query, when only the key/value projection has a bias); every other stage
-leaves the query path alone. -/
-def runQStage (otherBias : Bool) (st : List QOp × Bool × Bool) (key : String) : List QOp × Bool × Bool :=
+/-- what sits in front of MHA's query (outermost last), "scale folded", "query bias folded", "the MHA node has a
+packed `bias` input" -/
+abbrev QState := List QOp × Bool × Bool × Bool
+
+/-- One `fuse_xformers` stage acting on the query path of an attention block.  `mha_scale` peels a `Mul` that feeds MHA
+directly — since /repo commit a202620 (`fix16`) only when the node has NO bias input (the operator adds its packed bias
+before scaling the scores); `mha_bias` peels an `Add` (it also fires, without touching the query, when only the
+key/value projection has a bias) and its pattern requires the node's bias input to be absent; every other stage leaves
+the query path alone. -/
+def runQStage (fix16 : Bool) (otherBias : Bool) (st : QState) (key : String) : QState :=
   if key == "mha_scale" then
+    if fix16 && st.2.2.2 then st else
     let (o, m) := peelMul st.1
-    (o, st.2.1 || m, st.2.2)
+    (o, st.2.1 || m, st.2.2.1, st.2.2.2)
   else if key == "mha_bias" then
+    if st.2.2.2 then st else
     let (o, a) := peelAdd st.1
-    if a || otherBias then (o, st.2.1, st.2.2 || a) else st
+    if a || otherBias then (o, st.2.1, st.2.2.1 || a, true) else st
   else st
 
-/-- the attention stages run in the order given by `keys` -/
-def pipeStagesOf (keys : List String) (ops : List QOp) (otherBias : Bool) : List QOp × Bool × Bool :=
-  keys.foldl (runQStage otherBias) (ops, false, false)
+/-- the attention stages run in the order given by `keys`, on a freshly fused MHA node (current rules) -/
+def pipeStagesOf (keys : List String) (ops : List QOp) (otherBias : Bool) : QState :=
+  keys.foldl (runQStage true otherBias) (ops, false, false, false)
+
+/-- `pipeStages`' result as a `QState`: the node has a bias input iff `mha_bias` fired (query bias or other bias) -/
+def qstateOf (r : List QOp × Bool × Bool) (otherBias : Bool) : QState := (r.1, r.2.1, r.2.2, r.2.2 || otherBias)
 
 /-! ## Second application (`fuse_*` / `fuse_xformers` run again on its own output) -/
 
@@ -112,16 +122,19 @@ round after the first one (the MHA rules find nothing new): the `else:`-guarded 
 def unguardedKeys (l : List (String × String × String)) : List String :=
   (l.filter (fun s => s.2.1 != "" && s.1 == "")).map (fun s => s.2.1)
 
-/-- A later round of `fuse_xformers` continues from the state the previous round left (ops in front of MHA, flags). -/
-def pipeRoundOf (keys : List String) (otherBias : Bool) (st : List QOp × Bool × Bool) : List QOp × Bool × Bool :=
-  keys.foldl (runQStage otherBias) st
+/-- A later round of `fuse_xformers` continues from the state the previous round left. -/
+def pipeRoundOf (fix16 : Bool) (keys : List String) (otherBias : Bool) (st : QState) : QState :=
+  keys.foldl (runQStage fix16 otherBias) st
 
-/-- What a SECOND `fuse_xformers` does to the block the first one left: `mha_bias` / `attention` are skipped by the
-guard, `mha_scale` is not — it peels a `Mul` the first round had to leave in front of MHA, whether or not a bias has
-been packed into the node in between (restated as the code is: `FuseMHAScale.check` never looks at MHA's `bias` input). -/
-def pipeSecondRound (st : List QOp × Bool × Bool) : List QOp × Bool × Bool :=
+/-- does a SECOND `fuse_xformers` fold one more `Mul`?  `mha_bias` / `attention` are skipped by the guard, `mha_scale`
+is not: it peels a `Mul` the first round left in front of MHA — since a202620 (`fix16`) unless the node carries a bias. -/
+def pipeSecondPeels (fix16 : Bool) (st : QState) : Bool :=
+  !(fix16 && st.2.2.2) && (peelMul st.1).2
+
+def pipeSecondRound (fix16 : Bool) (st : QState) : QState :=
+  if fix16 && st.2.2.2 then st else
   let (o, m) := peelMul st.1
-  (o, st.2.1 || m, st.2.2)
+  (o, st.2.1 || m, st.2.2.1, st.2.2.2)
 
 def qOpsOf (qProj : String) : List QOp :=
   match qProj with
@@ -136,9 +149,9 @@ def qOpsOf (qProj : String) : List QOp :=
 what the final `optimize` removes). -/
 def pipeSecond (i : PipeIn) : String :=
   if i.mask1d then "*" else
-  let r1 := pipeStages (qOpsOf i.qProj) (i.kb || i.vb)
-  let r2 := pipeSecondRound r1
-  s!"0/0/{if r2.2.1 && !r1.2.1 then 1 else 0}/0/0"
+  let ob := i.kb || i.vb
+  let st1 := qstateOf (pipeStages (qOpsOf i.qProj) ob) ob
+  s!"0/0/{if pipeSecondPeels true st1 then 1 else 0}/0/0"
 
 /-- counts of a second run of the three rotary stages: a `RotaryEmbedding` function node that the cos/sin-cache rule
 did not consume is inlined again by the trailing `optimize`, so the same stage-1 fusion fires again (and is undone
